@@ -3,7 +3,7 @@
    The model is Html/Model.v (all of /repo/html/lex.go and ToHash over the generated table); [run c n l] is a
    caller that calls Next n times whatever it returns; [cfg_ok c] says the two template delimiters contain no
    NUL byte (c = no_tmpl: NewLexer; the six predefined pairs satisfy it, cfg_ok_predefined). *)
-From Verif Require Import Common.Base Common.Lx Gen.Tables Html.Model Html.ListLemmas Html.Safety Html.Step Html.Spec Html.RawText Html.Proofs Html.Template Html.Wf Html.WfDoc Html.EndTag Html.TemplateMore.
+From Verif Require Import Common.Base Common.Lx Gen.Tables Html.Model Html.ListLemmas Html.Safety Html.Step Html.Spec Html.RawText Html.Proofs Html.Template Html.Wf Html.WfDoc Html.EndTag Html.TemplateMore Html.Script.
 
 (* C01 — no panic, no endless loop: n calls of Next succeed on every byte string, with or without template
    delimiters, whatever the caller does after an error. *)
@@ -98,6 +98,23 @@ Theorem html_rawtext_never_markup :
 Proof. exact html_rawtext_proof. Qed.
 Print Assumptions html_rawtext_never_markup.
 
+(* C09 — script, double escape (full, no template delimiters): the content of a script element is ONE Text token that
+   ends exactly where the rules designate.  Script.script_len reads the remaining input as script data: a
+   "</script" followed by whitespace, '/', '>' or the end of input ends the content; "<!--" opens a section
+   (Script.esc_end) that "-->" closes; inside it "<script" + tag end sets the double-escape flag, and "</script" + tag
+   end clears the flag if it is set and otherwise ends the content; other "<", "</" + letters are skipped; the end of
+   input ends the content.  (e = cursor: the content is empty.) *)
+Theorem html_script_double_escape :
+  forall d l ty tk l', html_inv d l -> intag l = false -> rawtag l = html_hash_Script ->
+    next no_tmpl l = Ok (ty, tk, l') ->
+    let e := lpos (lz l) + script_len (skipz (lpos (lz l)) d) in
+    lpos (lz l) <= e <= len d /\
+    (lpos (lz l) < e ->
+       ty = TextT /\ tk = Some (mkSl (lpos (lz l)) (e - lpos (lz l))) /\ ltext l' = tk /\
+       rawtag l' = 0 /\ intag l' = false /\ lpos (lz l') = e).
+Proof. exact html_script_end_proof. Qed.
+Print Assumptions html_script_double_escape.
+
 (* C09 — templates, text: a delimited region [p,q) that starts where the lexer is in text is returned as exactly
    one Template token, HasTemplate() = true (is_region: q is the end of the first closing delimiter outside quoted
    strings, or the end of input). *)
@@ -191,7 +208,8 @@ Print Assumptions html_template_rawtext_converse.
    WfDoc.item (text without '<'; comments; CDATA; doctype in any ASCII case; start tags of ordinary elements with
    valueless / unquoted / single- / double-quoted attributes and any permitted whitespace, closed by '>' or '/>';
    end tags with any HTML whitespace before '>'; the raw-text elements style, title, textarea, xmp, iframe, script in any ASCII case with
-   attributes, non-empty content that contains no "</" (script: also no "<!--"), and their end tag; plaintext with
+   attributes, non-empty content that contains no "</" (script: also no "<!--", or content with "<!--" sections for
+   which the double-escape rules designate the element's end tag: WfDoc.script_content), and their end tag; plaintext with
    everything after its tag (last item); bogus comments "<?…>", "<!…>" (not starting with "--", "[CDATA[", 'd', 'D')
    and "</" + non-letter "…>"; svg / math / xml subtrees whose inside is accepted by Wf.xml_wf: read as tags and
    character data, quotes count only inside tags (attribute values may contain '>', "</svg>" and the other quote),
@@ -201,7 +219,7 @@ Print Assumptions html_template_rawtext_converse.
    (one per tag part; raw content as ONE Text token; an svg/math subtree as ONE SVG/Math token), with the right
    type, the bytes of the construct, lower-cased Text()/AttrKey() and verbatim AttrVal(), followed by the
    end-of-input report.  [observe] reads type, token bytes, Text() and (for attributes) AttrVal() after each call.
-   NOT covered by this theorem (correspondence + Go oracle only): script content containing "<!--" (double escape), raw
+   NOT covered by this theorem (correspondence + Go oracle only): raw
    content that is empty or contains "</" (html_rawtext_never_markup says where such content ends), svg/math whose
    comments / CDATA contain "</svg", "<!d…>" bogus comments, unterminated constructs, text containing a '<' that opens nothing, names containing '/', templates. *)
 Theorem html_wellformed_tokens_partial :
